@@ -133,6 +133,36 @@ pub fn run_history(ops: &[Op], local: &mut Local) -> Check {
     if disk.snapshot() != before {
         return Err(Failure::new("keypair-with-open-changed-files", "the rejected build changed the storage files".to_string()));
     }
+    // (4b) building on the existing storage with the full key pair but WITHOUT open(true) (and without
+    // overwrite) must also recover the stored writability: a core made read-only stays read-only
+    {
+        let r = catch(|| {
+            block_on(async {
+                let storage = disk.storage_async().await?;
+                HypercoreBuilder::new(storage).key_pair(hc::test_keypair()).build().await
+            })
+        })
+        .map_err(|p| panic_failure("building on existing storage with a key pair", &p))?;
+        if let Ok(mut core) = r {
+            let w = core.info().writeable;
+            if w != expect_writeable {
+                return Err(Failure::new(
+                    "writability-not-recovered:build-with-keypair",
+                    format!("building on existing storage with the full key pair (no open mode) reports writeable = {w}, the storage says {expect_writeable}"),
+                ));
+            }
+            if !expect_writeable {
+                match catch(|| block_on(core.append(b"x"))).map_err(|p| panic_failure("append on rebuilt read-only core", &p))? {
+                    Err(HypercoreError::NotWritable) => {}
+                    other => return Err(Failure::new("append-on-readonly", format!("append on a read-only storage rebuilt with a key pair returned {other:?}"))),
+                }
+            }
+            local.class("rebuilt_with_keypair_without_open_mode");
+        }
+        if disk.snapshot() != before {
+            return Err(Failure::new("keypair-build-changed-files", "building on existing storage and a refused append changed the storage files".to_string()));
+        }
+    }
     local.class("histories");
     if made_ro {
         local.class("with_make_read_only");
